@@ -919,6 +919,12 @@ m("c03-params-rewrite-slip", "C03", "app/upgrades/v1.8.0/upgrades.go",
 m("c03-router-genesis-fast-path", "C03", "app/ante/ante.go",
   "\t\tvar anteHandler sdk.AnteHandler\n", "\t\tif ctx.BlockHeight() == 0 && !ctx.IsCheckTx() && !sim {\n\t\t\treturn ctx, nil\n\t\t}\n\t\tvar anteHandler sdk.AnteHandler\n",
   "success-only-through-a-route", "the router accepts genesis transactions itself")
+m("c17-declared-gas-not-reset", "C17", "x/feemarket/keeper/abci.go",
+  "\tk.SetTransientBlockGasWanted(ctx, 0)\n", "",
+  "declared-gas-reset", "BeginBlock no longer resets the declared-gas counter")
+m("c17-floor-truncated", "C17", "x/feemarket/keeper/eip1559.go",
+  "params.MinGasPrice.Ceil().TruncateInt().BigInt()", "params.MinGasPrice.TruncateInt().BigInt()",
+  "floor-is-the-ceiling-of-the-minimum", "the floor is rounded down")
 for prop in ("C16", "C07"):
     m("c%s-gas-meter-without-precharge" % prop[1:], prop, "precompiles/common/precompile.go",
       "sdk.NewGasMeter(initialGas + contract.Gas)", "sdk.NewGasMeter(contract.Gas)",
